@@ -373,7 +373,7 @@ CO_ERR COLssStore(uint32_t baudrate, uint8_t nodeId) {
     return CO_ERR_NONE;
 }
 void COIfCanReceive(CO_IF_FRM *frm) { if (!W) return; Frame f; f.id = frm->Identifier; f.dlc = frm->DLC; memcpy(f.d, frm->Data, 8); W->ev(EV_CANRECEIVE, 0, 0, 0, &f); }
-void COPdoTransmit(CO_IF_FRM *frm) { if (!W) return; Frame f; f.id = frm->Identifier; f.dlc = frm->DLC; memcpy(f.d, frm->Data, f.dlc > 8 ? 8 : f.dlc); W->ev(EV_PDOTRANSMIT, 0, 0, 0, &f); }
+void COPdoTransmit(CO_IF_FRM *frm) { if (!W) return; Frame f; f.id = frm->Identifier; f.dlc = frm->DLC; memcpy(f.d, frm->Data, f.dlc > 8 ? 8 : f.dlc); W->ev(EV_PDOTRANSMIT, 0, 0, 0, &f); if (W->onPdoTransmit) W->onPdoTransmit(f); }
 int16_t COPdoReceive(CO_IF_FRM *frm) { if (!W) return 0; Frame f; f.id = frm->Identifier; f.dlc = frm->DLC; memcpy(f.d, frm->Data, 8); W->ev(EV_PDORECEIVE, W->S().pdoReceiveRet, 0, 0, &f); return (int16_t)W->S().pdoReceiveRet; }
 void COPdoSyncUpdate(CO_RPDO *pdo) { if (!W) return; W->ev(EV_SYNCUPDATE, (int64_t)(pdo - W->S().node->RPdo)); }
 int16_t COParaDefault(struct CO_PARA_T *pg) {
